@@ -6,6 +6,7 @@ import (
 	"log/slog"
 
 	"github.com/gmrtd/gmrtd/cryptoutils"
+	"github.com/gmrtd/gmrtd/tlv"
 	"github.com/gmrtd/gmrtd/utils"
 )
 
@@ -281,4 +282,15 @@ func parseDatetimeYYYYMMDDHHMISS(data []byte) string {
 	}
 
 	return out
+}
+
+// lookupRootNode returns the outer data object of an LDS file: the first top-level data object, which must carry
+// the tag of the requested file (a file that merely contains the expected template after some other leading data
+// object is not that file).
+func lookupRootNode(nodes *tlv.TlvNodes, tag tlv.TlvTag) tlv.TlvNode {
+	all := nodes.Nodes()
+	if len(all) < 1 || all[0].Tag() != tag {
+		return tlv.NewTlvNilNode()
+	}
+	return all[0]
 }
